@@ -27,30 +27,33 @@ PENDING_TEXT = {
 PROPS = {
     "C13": {
         "module": "ShapeVerif.Props.C13",
-        "theorems": ["ShapeVerif.defined_once", "ShapeVerif.createSubtype_definesOnce_aux"],
+        "theorems": ["ShapeVerif.defined_once", "ShapeVerif.refs_defined", "ShapeVerif.createSubtype_covers",
+                     "ShapeVerif.createSubtype_definesOnce_aux"],
         "statements": {
-            "defined_once": "∀ s, the item names of `firstPass s` (the items rendered into the file) are pairwise distinct",
+            "defined_once": "∀ s, the names of the struct/enum items emitted for s are pairwise distinct",
+            "refs_defined": "∀ s, ∀ item ∈ firstPass s, every named type occurring in the item's field / variant / alias types is the name of an item of firstPass s (the module is self-contained)",
         },
-        "partial": ["proved: every generated item name is defined once (the D15 repair). Not yet theorems: every referenced name is defined (refs_defined) and legality/distinctness of field names; both are decided on every generated file by the independent item parser and name-resolution check, and on batches by rustc",
+        "partial": ["proved for all shapes: every struct/enum name is defined once (D15 repair) and every referenced type name is defined in the module (refs_defined). Not theorems: legality and distinctness of field names (false of the code: D17) and everything else rustc checks; decided on every generated file by the independent item parser and name-resolution check, and on batches by rustc",
                     "known findings: member names whose snake form is not a legal or distinct field name (D17), tuples of more than 12 elements (D19)"],
         "rule": "gen on shapes inferred from random histories (`gen`, property domain) and on arbitrary shapes (`genx`, model/code comparison only), compile on source sets: the returned text is parsed by an independent parser of codegen's item syntax, names are resolved (each referenced type defined exactly once or standard, legal distinct field/variant/type names, tuple arity), and the first 60 (thorough: 600) modules that pass are included in a module as documented and compiled by rustc against serde. Non-trivial = a module with at least one struct or enum.",
         "assumptions": ["rustc and serde_derive as installed decide 'compiles' for the batches; the item parser + resolution check decides it on every case"],
-        "level_text": "The generator (first_pass, create_subtype, shape_name with CRC-32 and convert_case, shape_representation, codegen's rendering) is modelled in Lean and compared byte for byte with the real generator on every case of the run. defined_once is a theorem over all shapes: no item name is emitted twice. The remaining clauses of C13 are validated per generated file (independent parser + resolution) and by rustc on batches; they are not theorems yet.",
+        "level_text": "The generator (first_pass, create_subtype, shape_name with CRC-32 and convert_case, shape_representation, codegen's rendering) is modelled in Lean and compared with the real generator on every case of the run. Theorems over all shapes: no struct/enum name is emitted twice (defined_once) and every type name the module refers to is defined in it (refs_defined). Field-name legality is false of the code (known finding D17); it and the rest of 'compiles' are decided per generated file by an independent parser + resolution check and by rustc on batches.",
         "level_note": "Trusted: Lean kernel; Lean model of json_shape_build (differential, byte-exact); lib/rustitems.py as the Rust-item parser; rustc for batches.",
         "trusted_extra": ["lib/rustitems.py: parser of codegen's item syntax and name-resolution check (independent of the Lean model)", "rustc + serde_derive for the compiled batches"],
     },
     "C14": {
         "module": "ShapeVerif.Props.C14",
-        "theorems": ["ShapeVerif.repr_decodes", "ShapeVerif.repr_decodes_nameless"],
+        "theorems": ["ShapeVerif.generated_types_mirror", "ShapeVerif.definitions_mirror", "ShapeVerif.repr_decodes",
+                     "ShapeVerif.resolver_exists", "ShapeVerif.items_from_named", "ShapeVerif.repr_decodes_nameless"],
         "statements": {
             "repr_decodes": "∀ s (no Tuple of length 1) and resolver env, Resolves env s → decodeTy env (shapeRepr s) = some s: the type expression written for a shape in field/variant/alias position reads back as that shape (f64/String/bool/(), Option for optional, Vec, tuples in order, named types through the resolver)",
             "repr_decodes_nameless": "for shapes without Object/OneOf the read-back needs no resolver at all",
         },
-        "partial": ["proved for type expressions (shape_representation) relative to a resolver for named types; that the emitted struct/enum definitions make the resolver true (definitions read back, one field per member, one variant per variant shape) is validated on every generated file by decoding the parsed items, not yet a theorem",
+        "partial": ["generated_types_mirror: for every shape whose type names do not clash (NoClash, the complement of known finding D16) the root type expression reads back as the shape and every struct/enum of the module mirrors its sub-shape (one field per member in order, field name = snake form of the member name, field type reading back as the member's shape; one variant per variant shape) with respect to one resolver read off the shape. The root item of an optional Object/OneOf is the bare struct (known finding D22); the rendering of items to text is compared, not proved",
                     "known findings: name clashes (D16) make a reference resolve to another shape's struct; a root optional Object/OneOf is emitted without Option (D22)"],
         "rule": "every generated file (gen on inferred shapes, compile on source sets) with identifier-like member names is parsed and decoded back into a shape, following type references from the root item, and compared with the inferred shape: kinds, optional flags, element order, variants as sets, members by position (and by name when names are already snake_case). Non-trivial = a shape with a container.",
         "assumptions": [],
-        "level_text": "repr_decodes is a Lean theorem over all shapes: shape_representation is injective up to the resolver and decodes to the shape. The generator model is compared byte for byte with the real generator each run, and the full read-back of definitions is recomputed on the real output by an independent decoder.",
+        "level_text": "generated_types_mirror is a Lean theorem over all shapes without type-name clashes: the type written for a shape reads back as exactly that shape (f64/String/bool/(), Option, Vec, tuples in order, named types) and every generated struct/enum definition mirrors its Object/OneOf sub-shape member by member / variant by variant. The generator model is compared with the real generator each run, and the read-back is recomputed on the real output by an independent decoder.",
         "level_note": "Trusted: Lean kernel; Lean model of json_shape_build (differential, byte-exact); lib/rustitems.py decoder.",
         "trusted_extra": ["lib/rustitems.py: parser of codegen's item syntax and decoder of items into shapes (independent of the Lean model)"],
     },
